@@ -183,6 +183,16 @@ func c17Run(c c17Case, st *fw.Stats) []fw.Viol {
 	if c.First == 0 {
 		probe(c.Prefix)
 		probe(c.Prefix + "/")
+		// absolute components: the real absolute paths of the outside files, raw and encoded
+		for _, out := range []string{"SECRET.txt", "rootx/s.css", "root/../SECRET.txt"} {
+			abs := filepath.Join(c17Base, out)
+			for _, pre := range []string{"", "/", "/sub", "/sub/..", "/a.txt/.."} {
+				probe(c.Prefix + pre + abs)
+				probe(c.Prefix + pre + "/" + abs)
+				probe(c.Prefix + pre + strings.ReplaceAll(abs, "/", "%2f"))
+				probe(c.Prefix + pre + "/" + strings.ReplaceAll(abs, "/", "%2F") + ".css")
+			}
+		}
 	}
 	rec("/"+c17Tokens[c.First], 1)
 	if st.WantSample() {
